@@ -232,9 +232,24 @@ pub fn c01(opts: &Opts, out: &mut Out) {
     // non-zero values, equal commitments in two positions, value == promise with a zero mask
     let mut ndeg = 0usize;
     for (ci, &(n, m, cap, t)) in [(1usize, 1usize, 1usize, 1usize), (8, 1, 2, 2), (4, 2, 2, 3), (64, 1, 1, 6), (8, 4, 4, 1), (2, 2, 4, 4)].iter().enumerate() {
-        for shape in 0..5usize {
+        for shape in 0..7usize {
             let mut inst = fmrun::random_inst(n, m, cap, t, ci + shape, m == 1 && shape % 2 == 0, &mut rng);
             match shape {
+                5 => {
+                    // a zero mask component in front of non-zero ones
+                    for j in 0..m {
+                        inst.blindings[j][0] = Scalar::ZERO;
+                    }
+                },
+                6 => {
+                    // zero components scattered through the mask of one member
+                    let j = m - 1;
+                    for k in 0..t {
+                        if k % 2 == 0 {
+                            inst.blindings[j][k] = Scalar::ZERO;
+                        }
+                    }
+                },
                 0 => {
                     for j in 0..m {
                         inst.values[j] = 0;
